@@ -73,7 +73,7 @@ PROPS['C18'] = dict(
 PROPS['C16'] = dict(
     title='traversal',
     units=['iter', 'conv', 'derive', 'getstr'],
-    engines=[dict(module='gvc.engine', args=dict(analyses=('faithful',)))],
+    engines=[dict(module='gvc.engine', args=dict(analyses=('faithful', 'lexers')))],
     shims=['A-node', 'A-vec'],
     design='DESIGN.md 3/C16',
     technique='contract-based deductive verification (Verus) of the verbatim Iter/EventIter bodies, of every From<&..> for RefNodes conversion, of the instantiated derive templates and of get_str/get_str_trim/unwrap_*!; pre-order and balanced-event theorems as lemmas over the step contracts',
@@ -172,7 +172,7 @@ PROPS['C13'] = dict(
 PROPS['C15'] = dict(
     title='incomplete mode',
     units=['wrap', 'kwstack'],
-    engines=[dict(module='gvc.engine', args=dict(analyses=('nullable', 'entries', 'faithful', 'assumed')))],
+    engines=[dict(module='gvc.engine', args=dict(analyses=('nullable', 'entries', 'faithful', 'assumed', 'frame')))],
     shims=['A-nom', 'A-packrat'],
     design='DESIGN.md 3/C15',
     technique='generated nullable/manyok fixpoint over all productions, shape rules on the four top-level productions, absence of Failure producers; Verus contract on parse_sv_pp / parse_lib_pp (mode switch, Error::Parse only from a parser Err)',
